@@ -126,6 +126,7 @@ type world struct {
 	traffic     bool
 	stableBase  bool
 	everDeleted map[string]bool
+	errLeft     map[string]int  // pending object whose sync returned an error: deliveries the queue will still make
 	queried     map[string]bool // host strings already used as SNI / Host before (GetConfigForClient, SNIVerifyOptions, handshake)
 
 	caCache map[*x509.CertPool][]string
@@ -162,7 +163,7 @@ func buildObject(o *ObjSpec, endpoint string) *proxyv1alpha1.UpstreamCluster {
 
 func newWorld(r *vkit.R, traffic bool, hist int) *world {
 	w := &world{r: r, stubs: map[string]*bed.Stub{}, traffic: traffic, model: NewModel(), lister: map[string]*ObjSpec{}, pend: map[string]*proxyv1alpha1.UpstreamCluster{},
-		pendS: map[string]*ObjSpec{}, infos: map[string]*clusters.ClusterInfo{}, hist: hist, caCache: map[*x509.CertPool][]string{}, queried: map[string]bool{}, everDeleted: map[string]bool{}}
+		pendS: map[string]*ObjSpec{}, infos: map[string]*clusters.ClusterInfo{}, hist: hist, caCache: map[*x509.CertPool][]string{}, queried: map[string]bool{}, everDeleted: map[string]bool{}, errLeft: map[string]int{}}
 	w.gw = bed.NewGateway(bed.GatewayOptions{})
 	w.token = w.gw.Tokens.Add(&user.DefaultInfo{Name: "c10-user", Groups: []string{"system:authenticated"}})
 	pool := x509.NewCertPool()
@@ -266,8 +267,13 @@ func (w *world) step(ev Event, g *vkit.Rand, deep bool) {
 		}
 		delete(w.pend, ev.Name)
 		delete(w.pendS, ev.Name)
-		if sr.Requeue {
+		delete(w.errLeft, ev.Name)
+		switch {
+		case sr.Requeue:
 			w.pend[ev.Name], w.pendS[ev.Name] = o, ev.Obj
+		case sr.Err != nil && sr.Panic == nil:
+			// an error goes through the queue's rate-limited retry: at most maxErrRetries (3) more deliveries
+			w.pend[ev.Name], w.pendS[ev.Name], w.errLeft[ev.Name] = o, ev.Obj, 3
 		}
 	case "redeliver":
 		// the queue re-delivers the very object that asked for a requeue; only generated while it still is the lister's
@@ -275,9 +281,27 @@ func (w *world) step(ev Event, g *vkit.Rand, deep bool) {
 		o := w.pend[ev.Name]
 		sr = w.gw.Deliver(o)
 		refused = w.model.Apply(w.pendS[ev.Name])
-		if !sr.Requeue {
+		switch {
+		case sr.Requeue:
+			delete(w.errLeft, ev.Name) // a RequeueAfter result is re-delivered for as long as the sync keeps asking
+		case sr.Err != nil && sr.Panic == nil:
+			left, counted := w.errLeft[ev.Name]
+			if !counted {
+				left = 3
+			}
+			left--
+			w.errLeft[ev.Name] = left
+			if left <= 0 {
+				// the queue gives up on an object whose sync keeps returning an error
+				delete(w.pend, ev.Name)
+				delete(w.pendS, ev.Name)
+				delete(w.errLeft, ev.Name)
+				r.Count("objects_dropped_by_the_queue_after_error_retries", 1)
+			}
+		default:
 			delete(w.pend, ev.Name)
 			delete(w.pendS, ev.Name)
+			delete(w.errLeft, ev.Name)
 		}
 		r.Count("redeliveries", 1)
 	case "delete":
@@ -285,6 +309,7 @@ func (w *world) step(ev Event, g *vkit.Rand, deep bool) {
 		delete(w.lister, ev.Name)
 		delete(w.pend, ev.Name)
 		delete(w.pendS, ev.Name)
+		delete(w.errLeft, ev.Name)
 		if w.model.Live(ev.Name) {
 			w.everDeleted[ev.Name] = true
 			deleted = ev.Name
@@ -439,6 +464,49 @@ func (w *world) step(ev Event, g *vkit.Rand, deep bool) {
 			}
 			vs := variantsOf(n)
 			if !w.checkChain(vs[g.Intn(len(vs))], w.model.Owner[n]) {
+				return
+			}
+		}
+	}
+}
+
+// quiesce: everything the queue would still deliver is delivered (a pending object is re-delivered until it is applied, the
+// queue gives up on it, or a whole round changes nothing). Afterwards nothing is in flight any more, so "C's current server
+// names" are those of C's latest object: every cluster whose latest object claims only free or own names must be applied -
+// its own name and every server name resolve to it. (A cluster whose latest object still collides with a name another
+// cluster holds stays refused; nothing is demanded for it.)
+func (w *world) quiesce(g *vkit.Rand) {
+	for round := 0; round < 5 && len(w.pend) > 0 && !w.failed; round++ {
+		before := len(w.pend)
+		for _, c := range clusterNames {
+			if w.pend[c] != nil && !w.failed {
+				w.step(Event{Kind: "redeliver", Name: c, Note: "quiescence"}, g, false)
+				w.r.Count("quiescence_redeliveries", 1)
+			}
+		}
+		if len(w.pend) == before && round >= 1 {
+			break
+		}
+	}
+	if w.failed {
+		return
+	}
+	w.r.Count("quiescence_checks", 1)
+	for _, c := range clusterNames {
+		spec := w.lister[c]
+		if spec == nil {
+			continue
+		}
+		w.r.Count("quiescence_clusters_checked", 1)
+		if len(w.model.Conflicts(spec)) > 0 {
+			w.r.Count("quiescence_clusters_still_in_conflict", 1)
+			continue
+		}
+		for _, n := range claimed(spec) {
+			if got, _ := w.resolve(n); got != c {
+				w.events = append(w.events, Event{Kind: "quiescence", Name: c, Note: "nothing left to deliver"})
+				w.violate("C10/quiescence/latest-object-never-applied", fmt.Sprintf("cluster %q: its latest object claims only free or own names %q and the queue has nothing left to deliver, but host %q resolves to %q", c, claimed(spec), n, got),
+					map[string]interface{}{"host": n, "pending": len(w.pend)})
 				return
 			}
 		}
@@ -976,6 +1044,78 @@ func (x *gen) next() Event {
 			}
 		}
 	}
+	if l := x.live(); len(l) > 1 && g.Chance(0.22) {
+		// a: a live cluster that holds at least one alias; b: another live cluster
+		var withAlias []string
+		for _, c := range l {
+			if w.pend[c] == nil && len(w.model.NamesOf(c)) > 1 {
+				withAlias = append(withAlias, c)
+			}
+		}
+		a, b := "", l[g.Intn(len(l))]
+		if len(withAlias) > 0 {
+			a = withAlias[g.Intn(len(withAlias))]
+		}
+		if a != "" && a != b && w.pend[a] == nil && w.pend[b] == nil && w.model.Live(a) && w.model.Live(b) {
+			var aAliases, bAliases []string
+			for _, n := range w.model.NamesOf(a) {
+				if n != a {
+					aAliases = append(aAliases, n)
+				}
+			}
+			for _, n := range w.model.NamesOf(b) {
+				if n != b {
+					bAliases = append(bAliases, n)
+				}
+			}
+			if g.Bool() && len(aAliases) > 0 {
+				// a long conflict: b claims a name a still holds, the queue retries b several times while the conflict lasts,
+				// then an event of the OTHER cluster (update or delete of a) ends the conflict
+				n := aAliases[g.Intn(len(aAliases))]
+				ob := x.cur(b)
+				ob.Names = append(ob.Names, randCase(g, n))
+				for k := 0; k < 3+g.Intn(2); k++ {
+					x.planned = append(x.planned, Event{Kind: "redeliver", Name: b, Note: "retry while the conflict lasts"})
+				}
+				if g.Bool() {
+					oa := x.cur(a)
+					var keep []string
+					for _, s := range oa.Names {
+						if strings.ToLower(s) != n {
+							keep = append(keep, s)
+						}
+					}
+					oa.Names = keep
+					x.planned = append(x.planned, Event{Kind: "apply", Name: a, Obj: oa, Note: "gives up " + n + " after a long conflict"})
+				} else {
+					x.planned = append(x.planned, Event{Kind: "delete", Name: a, Note: "deleted after a long conflict"})
+				}
+				x.planned = append(x.planned, Event{Kind: "redeliver", Name: b, Note: "retry after the conflict ended"})
+				x.classes["long-conflict"] = true
+				return Event{Kind: "apply", Name: b, Obj: ob, Note: "claims " + n + " (held by " + a + " for a long time)"}
+			}
+			bAliases = append(bAliases, b) // b's own name is a name b holds, too
+			if len(aAliases) > 0 {
+				// a refused update that REPLACES a held name by a name of another cluster, then the cluster is deleted while
+				// that refused version is its latest object; afterwards somebody else takes the name it held
+				xn, yn := aAliases[g.Intn(len(aAliases))], bAliases[g.Intn(len(bAliases))]
+				oa := x.cur(a)
+				var keep []string
+				for _, s := range oa.Names {
+					if strings.ToLower(s) != xn {
+						keep = append(keep, s)
+					}
+				}
+				oa.Names = append(keep, randCase(g, yn))
+				x.planned = append(x.planned, Event{Kind: "delete", Name: a, Note: "deleted while its refused version is the latest object"})
+				ob := x.cur(b)
+				ob.Names = append(ob.Names, randCase(g, xn))
+				x.planned = append(x.planned, Event{Kind: "apply", Name: b, Obj: ob, Note: "takes " + xn + ", which the deleted cluster held"})
+				x.classes["refused-replace-then-delete"] = true
+				return Event{Kind: "apply", Name: a, Obj: oa, Note: "replaces " + xn + " by " + yn + " (held by " + b + ")"}
+			}
+		}
+	}
 	if l := x.live(); len(l) > 0 && g.Chance(0.12) {
 		// in-place rotation of TLS material: same object name, same server names; only the key pair, only the client CA,
 		// both, or one of them removed / added
@@ -1173,6 +1313,8 @@ func TestCheck(t *testing.T) {
 		r.Rule("seeded random histories of apply/delete/re-delivery events over 6 cluster names and a 9-entry alias pool (mixed case, includes other clusters' names), " +
 			"with scripted sub-sequences: collisions (a name of another live cluster is claimed, also as the object's own name), alias moves A->B in both orders " +
 			"(release first; claim first = refused, then re-delivered after the release), rename by delete+create in both orders, case changes / reorders / duplicates, " +
+			"long conflicts (the refused object is retried 3-4 times while the other cluster still holds the name, then an update or delete of the OTHER cluster ends the conflict), " +
+			"a refused update that replaces a held name by another cluster's name followed by the deletion of the cluster and a new claimant for the name it held, " +
 			"delete events for objects the controller refused or never saw, a name dropped and replaced in the same update by a duplicate (other spelling) of a remaining name or of the cluster's own name " +
 			"so that the list keeps its length, followed by another cluster claiming the dropped name, in-place rotation of a live cluster's serving key pair / client CA / both (changed, removed, added; names unchanged) " +
 			"with the cluster's hosts used as SNI (GetConfigForClient and, in traffic histories, a real handshake) immediately before and after the update. The base GetConfigForClientFunc " +
@@ -1184,6 +1326,7 @@ func TestCheck(t *testing.T) {
 			"while keeping 5 aliases and the cluster's own name, applied while 3-6 goroutines resolve the kept names and an untouched cluster's names through Manager.Get (case/port variants), " +
 			"WrapGetConfigForClient and the handler chain: a kept name must resolve to its cluster at every moment. Non-trivial = the history contains a collision, a move, a rename or a delete of a live cluster; distinct = hash of the event list.")
 		r.Assume("after a refused (conflicting) object the statement leaves open whether its non-conflicting part takes effect; both outcomes are accepted and the observed one is adopted")
+		r.Assume("queue contract (pkg/syncqueue): an object whose sync asked for RequeueAfter is re-delivered for as long as it keeps asking; an object whose sync returned an error is re-delivered at most maxErrRetries = 3 more times; at the end of a history everything still pending is delivered, then nothing is in flight")
 		r.Assume("SNI values carry no port (RFC 6066); port variants are exercised through the Host-header paths (handler chain, SNIVerifyOptions)")
 
 		nh := r.N(1500, 20000)
@@ -1208,6 +1351,9 @@ func TestCheck(t *testing.T) {
 			if p != nil {
 				r.Inconclusive(fmt.Sprintf("harness panic in history %d: %v", i, p))
 				return
+			}
+			if !w.failed {
+				vkit.Safely(func() { w.quiesce(g) })
 			}
 			if !w.failed {
 				w.shutdownCheck()
@@ -1240,7 +1386,8 @@ func TestCheck(t *testing.T) {
 		r.Require(r.Counter("shutdown_cluster_contexts_checked") >= int64(nh), "too few shutdown checks")
 		r.Require(r.Counter("rotations") >= int64(nh/2) && r.Counter("rotation_hosts_used_before_and_after") >= int64(nh) && r.Counter("rotation_handshakes_after") >= int64(nh/4),
 			"too few in-place rotations of TLS material with hosts used before and after")
-		for _, c := range []string{"replaced-by-duplicate", "rotation", "collision", "move-release-first", "move-claim-first", "rename", "case-change", "delete", "redeliver"} {
+		r.Require(r.Counter("quiescence_clusters_checked") >= int64(nh) && r.Counter("quiescence_redeliveries") >= int64(nh/10), "too few quiescence checks")
+		for _, c := range []string{"long-conflict", "refused-replace-then-delete", "replaced-by-duplicate", "rotation", "collision", "move-release-first", "move-claim-first", "rename", "case-change", "delete", "redeliver"} {
 			r.Require(classCount[c] >= nh/20, "scenario class "+c+" under-represented")
 		}
 	})
